@@ -216,8 +216,29 @@ def _provenance(run, P):
     c0 = f"{f.key}:tree"
     if not trees:
         run.incomplete("IDX/remap-provenance", c0, where(f), "tree request not found")
-    for i, t in enumerate(trees):
+    import copy as _copy
+    fdefs = LocalDefs(f.node)
+    expanded = []
+    for t in trees:
+        # get_ball_tree(**kw) with kw chosen per branch (kw = {...} in every arm): one variant of the call per dict literal; anything else is not understood
+        splat = [k for k in t.keywords if k.arg is None]
+        if not splat:
+            expanded.append((t, None))
+            continue
+        if len(splat) == 1 and isinstance(splat[0].value, ast.Name):
+            binds = [v for v, _i, _l in fdefs.defs.get(splat[0].value.id, [])]
+            if binds and all(isinstance(v, ast.Dict) and all(kk is not None and str_const(kk) for kk in v.keys) for v in binds) and not fdefs.stores.get(splat[0].value.id):
+                for v in binds:
+                    t2 = _copy.copy(t)
+                    t2.keywords = [k for k in t.keywords if k.arg is not None] + [ast.keyword(arg=str_const(kk), value=vv) for kk, vv in zip(v.keys, v.values)]
+                    expanded.append((t2, t))
+                continue
+        expanded.append((None, t))
+    for i, (t, orig) in enumerate(expanded):
         c = f"{f.key}:tree#{i}"
+        if t is None:
+            run.incomplete("IDX/remap-provenance", c, where(f, orig), f"the tree is requested with `{norm(orig)[:60]}`: keyword arguments passed through ** are not a dict literal bound in every branch")
+            continue
         probs = []
         if norm(t.func.value) != "source_grid":
             probs.append(f"tree requested from {norm(t.func.value)}: neighbours must be searched among the SOURCE grid's elements")
@@ -228,9 +249,9 @@ def _provenance(run, P):
         if not (isinstance(rec, ast.Constant) and rec.value is True):
             probs.append("tree not requested with reconstruct=True (a cached tree over another element kind or metric may be reused)")
         if probs:
-            run.violation("IDX/remap-provenance", c, where(f, t), "; ".join(probs))
+            run.violation("IDX/remap-provenance", c, where(f, orig or t), "; ".join(probs))
         else:
-            run.holds("IDX/remap-provenance", c, where(f, t), "source_grid tree over the data's element kind, rebuilt")
+            run.holds("IDX/remap-provenance", c, where(f, orig or t), "source_grid tree over the data's element kind, rebuilt")
     qs = [n for n in ast.walk(f.node) if isinstance(n, ast.Call) and isinstance(n.func, ast.Attribute) and n.func.attr == "query"]
     for i, q in enumerate(qs):
         c = f"{f.key}:query#{i}"
